@@ -18,6 +18,8 @@ import (
 // SDL of the zoo schema.
 const SDL = `
 type Query {
+  tracks: [Track]
+  firstTrack: Track
   items: [Item]
   name: String
   count: Int
@@ -62,6 +64,12 @@ type Member implements Node @go(type: "zoo.Person") {
   id: ID
   name: String
   since: Int
+}
+
+type Track {
+  name: String
+  title: String
+  length: Int
 }
 
 input Opts {
@@ -143,12 +151,15 @@ type Root struct {
 
 // Query is the query root.
 type Query struct {
-	Items []*Item
-	Name  string
-	Count int
-	When  time.Time
-	Ratio float64
-	Self  *Query
+	// Tracks holds VALUES, FirstTrack a pointer: the object type Track meets both forms of its Go type
+	Tracks     []Track
+	FirstTrack *Track
+	Items      []*Item
+	Name       string
+	Count      int
+	When       time.Time
+	Ratio      float64
+	Self       *Query
 
 	root  *ggql.Root // for Countdown, which resolves a request on the same root from inside a resolver
 	motto string     // unexported, read through the method Motto
@@ -333,6 +344,18 @@ func (q *Query) Shout(word string, times int) string {
 // URL is found for the field url although only the case of ALL its letters differs (Go initialisms).
 func (q *Query) URL() string { called("Query.URL"); return "https://example.org/zoo" }
 
+// Track has a method with a value receiver and one with a pointer receiver; both serve fields.
+type Track struct {
+	Name string
+	Secs int
+}
+
+// Title has a value receiver.
+func (t Track) Title() string { return "T:" + t.Name }
+
+// Length has a pointer receiver.
+func (t *Track) Length() int { return t.Secs }
+
 // OptsIn is a Go struct for the input type Opts that is NOT registered for it: Opts values stay maps.
 type OptsIn struct {
 	Text string
@@ -472,6 +495,7 @@ func newRootLate(sdl string) (*ggql.Root, *Root, func() error, error) {
 	i1 := &Item{ID: "i1", Size: 1, Tags: []string{"a"}, Next: i2, Kind: "SMALL"}
 	q := &Query{motto: "see for yourself", Items: []*Item{i1, i2}, Name: "zoo", Count: 2, When: time.Date(2020, 1, 2, 3, 4, 5, 0, time.UTC), Ratio: 0.5}
 	q.Self = q
+	q.Tracks, q.FirstTrack = []Track{{"a", 1}, {"b", 2}}, &Track{"f", 9}
 	r := &Root{Query: q, Mutation: &Mutation{N: 10}}
 	root := ggql.NewRoot(r)
 	q.root = root
@@ -543,6 +567,9 @@ var Requests = []struct {
 	{`query($o: Opts = {text: "d"}) { search(opts: $o) }`, nil},
 	{`query($o: Opts) { search(opts: $o) }`, map[string]interface{}{"o": map[string]interface{}{"tags": []interface{}{"v"}}}},
 	{`{ searchIn(opts: {text: "q", tags: ["x"]}) }`, nil},
+	{`{ tracks { name title } }`, nil},
+	{`{ firstTrack { name title length } }`, nil},
+	{`{ tracks { title length } }`, nil},
 	{`{ url shout s3: shout(times: 3) s4: shout(word: "ho") }`, nil},
 	{`{ s2: search(opts: {text: "after searchIn"}) }`, nil},
 	{`{ countdown(n: 3) name }`, nil},
